@@ -83,23 +83,36 @@ func (NS) MN() {}
 
 type INS interface{ MN() }
 
+// Pad2 is a plain struct that embeds two plain structs: placed before the
+// embedded dig.In of a parameter object it exercises the search for the
+// marker among several embedded fields.
+type (
+	PadA struct{}
+	PadB struct{}
+	Pad2 struct {
+		PadA
+		PadB
+	}
+)
+
 // NS2 is a second, distinct named slice over the same element type.
 type NS2 []*TA
 
 func (NS2) M2() {}
 
 var (
-	tA   = reflect.TypeOf((*TA)(nil))
-	tB   = reflect.TypeOf((*TB)(nil))
-	tC   = reflect.TypeOf((*TC)(nil))
-	tD   = reflect.TypeOf((*TD)(nil))
-	tIA  = reflect.TypeOf((*IA)(nil)).Elem()
-	tIAB = reflect.TypeOf((*IAB)(nil)).Elem()
-	tNS  = reflect.TypeOf(NS(nil))
-	tINS = reflect.TypeOf((*INS)(nil)).Elem()
-	tNS2 = reflect.TypeOf(NS2(nil))
-	tErr = reflect.TypeOf((*error)(nil)).Elem()
-	tInt = reflect.TypeOf(int(0))
+	tA    = reflect.TypeOf((*TA)(nil))
+	tB    = reflect.TypeOf((*TB)(nil))
+	tC    = reflect.TypeOf((*TC)(nil))
+	tD    = reflect.TypeOf((*TD)(nil))
+	tIA   = reflect.TypeOf((*IA)(nil)).Elem()
+	tIAB  = reflect.TypeOf((*IAB)(nil)).Elem()
+	tNS   = reflect.TypeOf(NS(nil))
+	tINS  = reflect.TypeOf((*INS)(nil)).Elem()
+	tNS2  = reflect.TypeOf(NS2(nil))
+	tPad2 = reflect.TypeOf(Pad2{})
+	tErr  = reflect.TypeOf((*error)(nil)).Elem()
+	tInt  = reflect.TypeOf(int(0))
 )
 
 // TypeOf maps a type code to the Go type. "[X]" is a slice of X.
@@ -126,6 +139,8 @@ func TypeOf(code string) reflect.Type {
 		return tINS
 	case "NS2":
 		return tNS2
+	case "Pad2":
+		return tPad2
 	case "int":
 		return tInt
 	case "error":
